@@ -38,6 +38,7 @@ type feResult struct {
 	tracked []string
 	noRef   bool
 	superset bool
+	self     bool
 }
 
 func (r feResult) label() string {
@@ -50,6 +51,9 @@ func (r feResult) label() string {
 	}
 	if r.superset {
 		n += "[superset]"
+	}
+	if r.self {
+		n += "[self]"
 	}
 	return n
 }
@@ -81,18 +85,9 @@ func subsumedBy(b, a *State) bool {
 	return true
 }
 
-func exploreOne(prog *Program, spec feSpec, multi bool, workers int, noRef bool, noEvents ...bool) feResult {
-	res := feResult{spec: spec, multi: multi, name: spec.rel + "." + spec.typ}
-	m, err := ExtractMachine(prog, spec.rel, spec.typ, spec.roots)
-	if err != nil {
-		res.err = err
-		return res
-	}
-	m.in.precisePrev = len(noEvents) > 0 && noEvents[0]
-	for f := range m.in.tracked {
-		res.tracked = append(res.tracked, f)
-	}
-	sort.Strings(res.tracked)
+// startStates interprets the entry points and returns the distinct states at
+// the first call of the dispatch function for the requested document mode.
+func startStates(m *Machine, spec feSpec, multi bool, res *feResult) []*State {
 	cfg := map[string]Val{"OnlyOne": vConstBool(!multi)}
 	var sel []*State
 	seen := map[string]bool{}
@@ -100,7 +95,7 @@ func exploreOne(prog *Program, spec feSpec, multi bool, workers int, noRef bool,
 		starts, notes, err := m.Starts(root, cfg)
 		if err != nil {
 			res.err = err
-			return res
+			return nil
 		}
 		res.notes = append(res.notes, notes...)
 		for _, s := range starts {
@@ -110,7 +105,7 @@ func exploreOne(prog *Program, spec feSpec, multi bool, workers int, noRef bool,
 			if _, has := s.fields["OnlyOne"]; has {
 				if _, ok := s.fields["OnlyOne"].isBool(); !ok {
 					res.err = fmt.Errorf("%s.%s: OnlyOne is not determined at the first call of the dispatch function", res.name, root)
-					return res
+					return nil
 				}
 			}
 			k := s.ctrlKey(nil)
@@ -137,12 +132,91 @@ func exploreOne(prog *Program, spec feSpec, multi bool, workers int, noRef bool,
 	res.starts = len(keep)
 	if len(keep) == 0 {
 		res.err = fmt.Errorf("%s: no start state for multi=%v", res.name, multi)
+		return nil
+	}
+	return keep
+}
+
+func exploreOne(prog *Program, spec feSpec, multi bool, workers int, noRef bool, noEvents ...bool) feResult {
+	res := feResult{spec: spec, multi: multi, name: spec.rel + "." + spec.typ}
+	m, err := ExtractMachine(prog, spec.rel, spec.typ, spec.roots)
+	if err != nil {
+		res.err = err
+		return res
+	}
+	m.in.precisePrev = len(noEvents) > 0 && noEvents[0]
+	m.in.buildKinds = m.in.precisePrev
+	for f := range m.in.tracked {
+		res.tracked = append(res.tracked, f)
+	}
+	sort.Strings(res.tracked)
+	keep := startStates(m, spec, multi, &res)
+	if res.err != nil {
 		return res
 	}
 	res.dis, res.undec = Explore(m, keep, multi, &res.stats, workers, noRef, noEvents...)
 	res.undec = append(res.undec, m.in.undecided...)
 	res.classes = len(m.in.cls.list)
 	return res
+}
+
+// exploreSelfOne: chunk independence of one front-end (selfprod.go).
+func exploreSelfOne(prog *Program, spec feSpec, multi bool, workers int) feResult {
+	res := feResult{spec: spec, multi: multi, name: spec.rel + "." + spec.typ, self: true}
+	m, err := ExtractMachine(prog, spec.rel, spec.typ, spec.roots)
+	if err != nil {
+		res.err = err
+		return res
+	}
+	m.in.buildKinds = true
+	m.in.selfEvents = true
+	m.in.noScratch = true
+	m.prepareNilTested()
+	for f := range m.in.tracked {
+		res.tracked = append(res.tracked, f)
+	}
+	sort.Strings(res.tracked)
+	keep := startStates(m, spec, multi, &res)
+	if res.err != nil {
+		return res
+	}
+	res.dis, res.undec = ExploreSelf(m, keep, multi, &res.stats, workers)
+	res.undec = append(res.undec, m.in.undecided...)
+	res.classes = len(m.in.cls.list)
+	return res
+}
+
+func exploreSelf(prog *Program, specs []feSpec, modes []bool) []feResult {
+	type job struct {
+		spec  feSpec
+		multi bool
+	}
+	var jobs []job
+	for _, s := range specs {
+		for _, mo := range modes {
+			jobs = append(jobs, job{s, mo})
+		}
+	}
+	out := make([]feResult, len(jobs))
+	workers := runtime.NumCPU() / len(jobs)
+	if workers < 2 {
+		workers = 2
+	}
+	var wg sync.WaitGroup
+	for i, j := range jobs {
+		wg.Add(1)
+		go func(i int, j job) {
+			defer wg.Done()
+			defer func() {
+				if r := recover(); r != nil {
+					out[i].err = fmt.Errorf("%s.%s: checker panic: %v", j.spec.rel, j.spec.typ, r)
+				}
+			}()
+			out[i] = exploreSelfOne(prog, j.spec, j.multi, workers)
+		}(i, j)
+	}
+	wg.Wait()
+	return out
 }
 
 // exploreFrontEnds runs the explorations concurrently.
@@ -183,6 +257,7 @@ func exploreFrontEnds(prog *Program, specs []feSpec, modes []bool, noRef bool, s
 
 // kinds of disagreement decided by each property.
 var (
+	kindsChunk    = map[string]bool{"chunk-verdict": true, "chunk-eof": true, "chunk-stack": true, "chunk-events": true}
 	kindsSuperset = map[string]bool{"rejects-live": true, "eof-reject": true, "stack-desync": true, "panic": true, "no-progress": true, "early-return": true}
 	kindsAccept   = map[string]bool{"accepts-dead": true, "rejects-live": true, "eof-accept": true, "eof-reject": true, "early-return": true, "stack-desync": true}
 	kindsEvents   = map[string]bool{"event-desync": true}
@@ -339,6 +414,7 @@ func ruleC03(prog *Program, rep *Report) {
 		"A-agree: each JSON front-end (oj.Parser, oj.Validator, oj.Tokenizer, gen.Parser) agrees with the common reference as an acceptor (single- and multi-document mode) and as an event source (value/token events emitted at the same byte, same kind); agreement with one reference implies pairwise agreement",
 		"A-chunk: a buffer refill is allowed between any two bytes of the exploration and every fast path guarded by the remaining buffer length is explored both taken and not taken, so agreement holds for every chunking",
 		"A-subset: sen.Parser and sen.Tokenizer, explored in product with the RFC 8259 reference but compared as a superset: wherever the reference continues the SEN front-end continues (no rejects-live), wherever the reference accepts at end of input the SEN front-end does (no eof-reject), containers open and close in lock-step while the input is JSON (no stack-desync), and no JSON prefix drives them into a panic or an endless re-dispatch; bytes only SEN accepts are not followed. For sen.Parser the kind of the top of the build stack (pending key / object being filled / other) is tracked, because its helpers choose key-or-value from it",
+		"A-senchunk: sen.Parser and sen.Tokenizer each explored in product with themselves: one side under an arbitrary chunking (fast paths look ahead as far as the buffer allows, a refill may happen between any two steps), the other under one-byte chunking (no fast path is ever taken), reading the same bytes. The two sides must give the same verdict for every byte and at end of input, push and pop containers in lock-step with equal frames, and produce the same sequence of observable operations (handler calls; for the parser: build-stack pushes/pops/truncations, key pushes, result store / callback call / channel send), compared with a bounded lag because a fast path reports a token when it sees the delimiter and the slow path when the delimiter is dispatched. Conditions over untracked data fork on both sides and are paired by source position; a disagreement is reported only when no pairing agrees",
 		"A-noarm: in sen.Parser and sen.Tokenizer explored alone, every action code a reachable (mode, byte) cell holds has a case in the dispatch switch (a missing case silently skips the byte in one sibling only)")
 	rep.Explain(engineAExplanation)
 	rep.Explain("C03 decides agreement of the strict-JSON front-ends as acceptors and event sources under every chunking, in single- and multi-document mode (the multi-document reference is: a sequence of JSON values optionally separated by whitespace; a top-level number ends at whitespace or end of input), and the structural part of sen.Parser/sen.Tokenizer agreement (no silently skipped action code). Not covered: equality of the value trees (values are Top in the abstract domain), alt.Builder reconstruction, Simplify, and equality of the SEN and JSON trees for a JSON text (A-subset decides acceptance and container structure only).")
@@ -347,8 +423,15 @@ func ruleC03(prog *Program, rep *Report) {
 	applyParseResults(rep, results, union(kindsAccept, kindsEvents, kindsPanic, map[string]bool{"stale-scratch": true}), "A-agree", 18)
 	sres := exploreFrontEnds(prog, senFrontEnds, []bool{false, true}, true)
 	applyParseResults(rep, sres, map[string]bool{"no-arm": true}, "A-noarm", 12)
-	ssup := exploreFrontEnds(prog, senFrontEnds, []bool{false, true}, false, true)
+	// the SEN superset and chunking views: single-document mode in the quick tier, both modes in the thorough tier
+	senModes := []bool{false}
+	if rep.Tier == "thorough" {
+		senModes = []bool{false, true}
+	}
+	ssup := exploreFrontEnds(prog, senFrontEnds, senModes, false, true)
 	applyParseResults(rep, ssup, kindsSuperset, "A-subset", 12)
+	sself := exploreSelf(prog, senFrontEnds, senModes)
+	applyParseResults(rep, sself, kindsChunk, "A-senchunk", 12)
 	ruleSENFollow(prog, rep)
 	ruleReaderLoops(prog, rep)
 	ruleEntryParity(prog, rep) // the []byte and the reader entry must start from the same state
